@@ -77,3 +77,19 @@ Theorem C01_args_left_to_right :
   | Stop e l s1 => LStop e l s1
   end.
 Proof. reflexivity. Qed.
+
+(* With environment functions that fail only for reasons of their own (never with the class
+   reserved for malformed bytecode), the statement needs no side condition: whole programs,
+   result cast included. *)
+Require Import X.Sem.NoMachine.
+
+Theorem C01_run_program :
+  forall fe cfg env c e, fn_no_machine fe -> compilable e = true ->
+  exists d0, forall d, (d0 <= d)%nat ->
+    run_code fe cfg env (compile_program (c_mapenv cfg) c e) d = Some (run_ref fe cfg env c e).
+Proof.
+  intros fe cfg env c e Hf Hc. apply run_compiled_program; [exact Hc|].
+  pose proof (eval_no_machine fe cfg env Hf e [] rs0) as H. unfold not_machine, stop_is_locatable in *.
+  destruct (eval fe cfg env [] e rs0) as [v r|er l r]; auto. destruct er; auto; try contradiction.
+Qed.
+Print Assumptions C01_run_program.
